@@ -317,7 +317,7 @@ def check(case, rec):
     rec.nontrivial(nt)
 
 
-PARTS = [Part("history", cases(), check, n_quick=3000, n_thorough=5000)]
+PARTS = [Part("history", cases(), check, n_quick=3000, n_thorough=15000)]
 
 
 def coverage_warnings(rec):
